@@ -7,6 +7,7 @@ import CallbagModel.Inv.FromIter
 import CallbagModel.Inv.Merge
 import CallbagModel.Inv.Relay
 import CallbagModel.Inv.Share
+import CallbagModel.Inv.ShareWeak
 import CallbagModel.Inv.Take
 /-!
 # C17 — no panics with conformant peers: property theorems (statements only; the invariants are in `Inv/`)
@@ -60,6 +61,12 @@ theorem C17_flatten {α : Type} :
     ∀ s, SReach (Flatten.machine α) s → SafeFor 17 s :=
   fun s hs => safeFor_of_basicSafe _ s hs (Flatten.flatten_basicSafe s hs) 17 (by decide)
 
+
+/-- `share`, EVERY conformant environment (nested fan-out included): the only phase-level violations share can commit are deliveries
+to sinks that are already done (C02/C03, known findings KF5a/KF5b), hence C17 holds in full. -/
+theorem C17_share {α : Type} :
+    ∀ s, SReach (Share.machine α) s → SafeFor 17 s :=
+  fun s hs => safeFor_of_onlyLateDelivery _ s hs (ShareWeak.share_safe_weak s hs).1 (ShareWeak.share_safe_weak s hs).2 17 (by decide)
 /-- `combine!`: the full phase-level safety statement is false (known findings KF2, KF3: messages to members that are not
 live, a C04 matter); what is proved is that those are the ONLY phase-level violations, hence C17 holds in full. -/
 theorem C17_combine {α : Type} (n : Nat) :
